@@ -5,6 +5,8 @@
 #include <chrono>
 #include <set>
 #include <unistd.h>
+#include <sys/wait.h>
+#include <fcntl.h>
 
 std::vector<Cfg> g_cfgs;
 std::vector<Property *> & registry() { static std::vector<Property *> r; return r; }
@@ -152,8 +154,25 @@ void Stats::merge(const Stats & o)
 
 // ------------------------------------------------------------------------------------------ configuration loading
 struct w_entry { const char * name; fn2 fn; };
+// configurations whose shared object could not even be loaded: a signal during its static initialisation (the wrappers
+// translation unit calls the compiled table functions from a namespace-scope constructor, before fixed_math.cc's own
+// initialisers). Probed in a forked child so that the monitor itself survives; such a configuration is left out of the run.
+static std::vector<std::pair<std::string, int>> g_load_crashes;
 static void load_cfg(const std::string & path)
   {
+  fflush(stdout); fflush(stderr);
+  pid_t pid = fork();
+  if(pid == 0)
+    {
+    int fd = open("/dev/null", O_WRONLY); if(fd >= 0) { dup2(fd, 2); close(fd); }
+    void * h = dlopen(path.c_str(), RTLD_NOW | RTLD_LOCAL);
+    _exit(h ? 0 : 3);
+    }
+  if(pid > 0)
+    {
+    int st = 0; waitpid(pid, &st, 0);
+    if(WIFSIGNALED(st)) { g_load_crashes.push_back({ path, WTERMSIG(st) }); return; }
+    }
   Cfg c; c.path = path;
   c.handle = dlopen(path.c_str(), RTLD_NOW | RTLD_LOCAL);
   if(!c.handle) harness_fail(std::string("dlopen ") + path + ": " + dlerror());
@@ -253,7 +272,8 @@ int main(int argc, char ** argv)
     else if(a == "--replay" && i + 4 < argc) { replay = true; rcheck = argv[i + 1]; ra = strtoll(argv[i + 2], nullptr, 10); rb = strtoll(argv[i + 3], nullptr, 10); rc = strtoll(argv[i + 4], nullptr, 10); i += 4; }
     else load_cfg(a);
     }
-  if(g_cfgs.empty()) harness_fail("no configurations given");
+  if(g_cfgs.empty() && g_load_crashes.empty()) harness_fail("no configurations given");
+  if(g_cfgs.empty() && pid != "C07" && pid != "C19") harness_fail("every configuration died while being loaded (signal during static initialisation)");
   fingerprint();
   Property * prop = nullptr;
   for(auto p : registry()) if(pid == p->id) prop = p;
@@ -304,6 +324,15 @@ int main(int argc, char ** argv)
     for(auto & t : th) t.join();
     for(auto & c : ctx) total.merge(c.st);
     }
+  if(!g_load_crashes.empty() && (pid == "C07" || pid == "C19"))
+    for(auto & lc : g_load_crashes)
+      { // calls of the compiled table functions made during static initialisation did not return (C07; they are C19's functions)
+      std::string base = lc.first.substr(lc.first.rfind('/') + 1);
+      VioClass & vc = total.vio[std::string("static-initialisation/signal-") + signame(lc.second)];
+      ++vc.count; ++vc.per_cfg[base];
+      Violation v; v.key = "static-initialisation"; v.check = "static_init"; v.cfg = base; v.observed = std::string(signame(lc.second)) + " while loading the configuration: a compiled table function called from a static initialiser of another translation unit did not return"; v.expected = "returns normally";
+      if(vc.wit.size() < 6) vc.wit.push_back(v);
+      }
   double wall = std::chrono::duration<double>(std::chrono::steady_clock::now() - t0).count();
   std::vector<std::string> missing;
   if(!replay) for(auto s : prop->required_strata) { auto it = total.strata.find(s); if(it == total.strata.end() || it->second == 0) missing.push_back(s); }
